@@ -474,7 +474,7 @@ Theorem T02c_sum_nest : forall w x cl e o z0 en tr el' tr',
 Proof. exact sum_nest_sound. Qed.
 Print Assumptions T02c_sum_nest.
 
-(* T02c.2  fixes.replace_for_loops_with_set_list_comp (repaired: a1a8449 e4b97c2 4ef7ee7 d8989ce 42c829e):
+(* T02c.2  fixes.replace_for_loops_with_set_list_comp (repaired: 1afd4ce 2b2a2c8 fc76563 cb1c1c8 c45a7c4):
    whenever the model of the rule rewrites `x = <start>; for ...` (append / add / += / -=), the result runs
    like the original, up to the loop variables; and with any code behind it that the rule's own condition
    dead_after accepts *)
@@ -515,7 +515,7 @@ Theorem T02c_setlist_leak_refuted :
 Proof. exact setlist_leak_refuted. Qed.
 Print Assumptions T02c_setlist_leak_refuted.
 
-(* T02c.2d  fixes.replace_for_loops_with_dict_comp (repaired: a1a8449 e4b97c2 4ef7ee7 7f19a3d), every start
+(* T02c.2d  fixes.replace_for_loops_with_dict_comp (repaired: 1afd4ce 2b2a2c8 fc76563 9a002ae), every start
    form ({}, {**a, **b}, other displays, a dict comprehension): d[k] = v evaluates v before k, the comprehension k
    before v, so the rule (and the theorem) wants one of them without calls of unknown functions *)
 Theorem T02c_dict_nest : forall w x cl k v d0 en tr el' tr',
@@ -542,7 +542,7 @@ Theorem T02c_dictcomp_in_context : forall w s1 s2 s' rest,
 Proof. exact dictcomp_in_context. Qed.
 Print Assumptions T02c_dictcomp_in_context.
 
-(* the rule before 7f19a3d: key and value both call an unknown function -> the calls change places *)
+(* the rule before 9a002ae: key and value both call an unknown function -> the calls change places *)
 Theorem T02c_dictcomp_order_refuted :
   exists w s1 s2 s' en tr r r', site_dictcomp_old s1 s2 = Some s'
     /\ exec_block w [s1; s2] en tr = Some r /\ exec_block w [s'] en tr = Some r' /\ snd r <> snd r'.
@@ -573,7 +573,7 @@ Theorem T02c_plus_refuted :
 Proof. exact plus_refuted. Qed.
 Print Assumptions T02c_plus_refuted.
 
-(* T02c.4  fixes.replace_nested_loops_with_set_list_comp (repaired: d4c6852 e5920d4 66f9895) *)
+(* T02c.4  fixes.replace_nested_loops_with_set_list_comp (repaired: 198a69c 93d9c07 c431d63) *)
 Theorem T02c_nested_loops_site : forall w fresh after s s',
   site_nested fresh after s = Some s' -> nested_guard fresh s = true ->
   forall x l0 en tr en1 tr1, nested_receiver s = Some x -> en x = Some (VList l0) ->
@@ -600,7 +600,7 @@ Theorem T02c_nested_loops_refuted :
 Proof. exact nested_loops_refuted. Qed.
 Print Assumptions T02c_nested_loops_refuted.
 
-(* T02c.5  fixes.remove_redundant_comprehensions (repaired: 2a1fb67): list / set / generator form *)
+(* T02c.5  fixes.remove_redundant_comprehensions (repaired: 668bf19): list / set / generator form *)
 Theorem T02c_redundant : forall w e e' en tr,
   rw_redundant e = Some e' -> (match e with XComp CDict _ _ _ => false | _ => true end) = true ->
   eval w e' en tr = eval w e en tr.
@@ -613,7 +613,7 @@ Theorem T02c_redundant_dict_refuted :
 Proof. exact redundant_dict_refuted. Qed.
 Print Assumptions T02c_redundant_dict_refuted.
 
-(* T02c.6  fixes.replace_map_lambda_with_comp / replace_filter_lambda_with_comp (repaired: 98a7aff) *)
+(* T02c.6  fixes.replace_map_lambda_with_comp / replace_filter_lambda_with_comp (repaired: abb6f9f) *)
 Theorem T02c_map : forall w e e' en tr, rw_map e = Some e' -> eval w e' en tr = eval w e en tr.
 Proof. exact map_sound. Qed.
 Print Assumptions T02c_map.
